@@ -13,6 +13,9 @@ import (
 
 // Prov says where a value's memory may come from.
 type Prov struct {
+	// Deep: bit i: reachable from parameter i through at least one load
+	// (not the parameter's immediate pointee). Deep is a subset of Params.
+	Deep    uint64
 	Params  uint64               // bit i: reachable from parameter i
 	Globals map[*ssa.Global]bool // reachable from these package-level variables
 	Fresh   bool                 // allocated during this call (here or in a callee)
@@ -23,6 +26,10 @@ func (p *Prov) merge(q Prov) bool {
 	ch := false
 	if p.Params|q.Params != p.Params {
 		p.Params |= q.Params
+		ch = true
+	}
+	if p.Deep|q.Deep != p.Deep {
+		p.Deep |= q.Deep
 		ch = true
 	}
 	if q.Fresh && !p.Fresh {
@@ -52,6 +59,11 @@ func (p Prov) String() string {
 			s = append(s, "param"+string(rune('0'+i)))
 		}
 	}
+	for i := 0; i < 64; i++ {
+		if p.Deep&(1<<uint(i)) != 0 {
+			s = append(s, "deep"+string(rune('0'+i)))
+		}
+	}
 	var gs []string
 	for g := range p.Globals {
 		gs = append(gs, "global:"+g.Name())
@@ -71,7 +83,14 @@ func (p Prov) String() string {
 }
 
 func (p Prov) onlyFresh() bool {
-	return p.Params == 0 && len(p.Globals) == 0 && !p.Unknown
+	return p.Params == 0 && p.Deep == 0 && len(p.Globals) == 0 && !p.Unknown
+}
+
+// deepen: the value was loaded from memory described by p.
+func (p Prov) deepen() Prov {
+	q := p
+	q.Deep |= p.Params
+	return q
 }
 
 type WriteSite struct {
@@ -82,18 +101,23 @@ type WriteSite struct {
 }
 
 type Effects struct {
-	Fn            *ssa.Function
-	WritesParam   []bool
-	WritesGlobals map[*ssa.Global]bool
-	WritesUnknown bool
-	Sites         []WriteSite // direct write sites in this function (non-local targets)
-	FieldReads    map[string]bool
-	GlobalReads   map[*ssa.Global]bool
-	RetProv       []Prov
-	Unmodelled    map[string]bool
-	Calls         map[string]bool // external callees (by name), for source-of-nondeterminism rules
-	Spawns        bool
-	MapRanges     []ssa.Instruction // range over a map
+	Fn              *ssa.Function
+	WritesParam     []bool
+	WritesParamDeep []bool // the write goes through a pointer loaded from the parameter's memory
+	WritesGlobals   map[*ssa.Global]bool
+	WritesUnknown   bool
+	Sites           []WriteSite // direct write sites in this function (non-local targets)
+	FieldReads      map[string]bool
+	GlobalReads     map[*ssa.Global]bool
+	RetProv         []Prov
+	Unmodelled      map[string]bool
+	Calls           map[string]bool // external callees (by name), for source-of-nondeterminism rules
+	Spawns          bool
+	MapRanges       []ssa.Instruction // range over a map
+	// StoresParam: bit i set when memory reachable from parameter i may be
+	// stored (retained) in non-local memory by this function or a callee.
+	StoresParam uint64
+	RetainSites []WriteSite
 }
 
 func (ef *Effects) Writes() bool {
@@ -133,7 +157,7 @@ func (w *World) Effects() map[*ssa.Function]*Effects {
 	sort.Slice(fns, func(i, j int) bool { return fns[i].String() < fns[j].String() })
 	for _, fn := range fns {
 		sig := fn.Signature
-		a.sum[fn] = &Effects{Fn: fn, WritesParam: make([]bool, len(fn.Params)), WritesGlobals: map[*ssa.Global]bool{},
+		a.sum[fn] = &Effects{Fn: fn, WritesParam: make([]bool, len(fn.Params)), WritesParamDeep: make([]bool, len(fn.Params)), WritesGlobals: map[*ssa.Global]bool{},
 			FieldReads: map[string]bool{}, GlobalReads: map[*ssa.Global]bool{}, RetProv: make([]Prov, sig.Results().Len()),
 			Unmodelled: map[string]bool{}, Calls: map[string]bool{}}
 	}
@@ -183,6 +207,7 @@ func (a *effectsAnalysis) analyse(fn *ssa.Function) {
 		}
 	}
 	ef.Sites = ef.Sites[:0]
+	ef.RetainSites = ef.RetainSites[:0]
 	ef.MapRanges = ef.MapRanges[:0]
 	for _, b := range fn.Blocks {
 		for _, in := range b.Instrs {
@@ -194,9 +219,20 @@ func (a *effectsAnalysis) analyse(fn *ssa.Function) {
 					field = fieldKey(fa)
 				}
 				a.write(ef, p, WriteSite{Instr: x, What: "store", Prov: p, Field: field})
+				if !p.onlyFresh() && pointerLike(x.Val.Type()) {
+					a.retain(ef, a.get(x.Val), WriteSite{Instr: x, What: "store", Prov: p, Field: field})
+				}
 			case *ssa.MapUpdate:
 				p := a.get(x.Map)
 				a.write(ef, p, WriteSite{Instr: x, What: "mapupdate", Prov: p})
+				if !p.onlyFresh() {
+					if pointerLike(x.Value.Type()) {
+						a.retain(ef, a.get(x.Value), WriteSite{Instr: x, What: "mapupdate", Prov: p})
+					}
+					if pointerLike(x.Key.Type()) {
+						a.retain(ef, a.get(x.Key), WriteSite{Instr: x, What: "mapupdate-key", Prov: p})
+					}
+				}
 			case *ssa.Go:
 				ef.Spawns = true
 			case *ssa.Range:
@@ -255,8 +291,12 @@ func (a *effectsAnalysis) write(ef *Effects, p Prov, site WriteSite) {
 	}
 	ef.Sites = append(ef.Sites, site)
 	for i := range ef.WritesParam {
-		if p.Params&(1<<uint(i)) != 0 && !ef.WritesParam[i] {
+		if (p.Params|p.Deep)&(1<<uint(i)) != 0 && !ef.WritesParam[i] {
 			ef.WritesParam[i] = true
+			a.changed = true
+		}
+		if p.Deep&(1<<uint(i)) != 0 && !ef.WritesParamDeep[i] {
+			ef.WritesParamDeep[i] = true
 			a.changed = true
 		}
 	}
@@ -270,6 +310,20 @@ func (a *effectsAnalysis) write(ef *Effects, p Prov, site WriteSite) {
 		ef.WritesUnknown = true
 		a.changed = true
 	}
+}
+
+// retain records that memory reachable from parameters (per vp) is stored
+// into non-local memory.
+func (a *effectsAnalysis) retain(ef *Effects, vp Prov, site WriteSite) {
+	if vp.Params == 0 {
+		return
+	}
+	if ef.StoresParam|vp.Params != ef.StoresParam {
+		ef.StoresParam |= vp.Params
+		a.changed = true
+	}
+	site.Prov = vp
+	ef.RetainSites = append(ef.RetainSites, site)
 }
 
 func (a *effectsAnalysis) get(v ssa.Value) Prov {
@@ -432,12 +486,9 @@ func (a *effectsAnalysis) update(fn *ssa.Function, v ssa.Value) bool {
 			// contents of a local/heap allocation made here: union of stored values
 			p := Prov{}
 			a.allocContents(al, &p, map[ssa.Value]bool{})
-			if al.Heap {
-				// `new`ed memory: its contents are whatever was stored
-			}
-			return a.set(v, p)
+			return a.set(v, p.deepen())
 		}
-		return a.set(v, a.get(x.X))
+		return a.set(v, a.get(x.X).deepen())
 	case *ssa.Call:
 		if x.Call.Signature().Results().Len() == 1 {
 			return a.set(v, a.callResultProv(x, 0))
@@ -581,7 +632,11 @@ func (a *effectsAnalysis) callResultProv(x *ssa.Call, idx int) Prov {
 		}
 		for i := range f.Params {
 			if rp.Params&(1<<uint(i)) != 0 && i < len(full) {
-				p.merge(a.get(full[i]))
+				q := a.get(full[i])
+				if rp.Deep&(1<<uint(i)) != 0 {
+					q = q.deepen()
+				}
+				p.merge(q)
 			}
 		}
 	}
@@ -630,7 +685,16 @@ func (a *effectsAnalysis) callEffects(fn *ssa.Function, ef *Effects, site ssa.Ca
 		switch b.Name() {
 		case "append":
 			p := a.get(c.Args[0])
-			a.write(ef, p, WriteSite{Instr: site, What: "append", Prov: p})
+			if !appendStoredBack(site) {
+				// x = append(x, …) writes only spare capacity of x's array, which no
+				// other holder of x can observe; the store of the result is what counts
+				a.write(ef, p, WriteSite{Instr: site, What: "append", Prov: p})
+			}
+			if !p.onlyFresh() && len(c.Args) > 1 {
+				if sl, ok := c.Args[1].Type().Underlying().(*types.Slice); ok && pointerLike(sl.Elem()) {
+					a.retain(ef, a.get(c.Args[1]), WriteSite{Instr: site, What: "append", Prov: p})
+				}
+			}
 		case "copy":
 			p := a.get(c.Args[0])
 			a.write(ef, p, WriteSite{Instr: site, What: "copy", Prov: p})
@@ -651,7 +715,14 @@ func (a *effectsAnalysis) callEffects(fn *ssa.Function, ef *Effects, site ssa.Ca
 		resolved = true
 		for i, wr := range sum.WritesParam {
 			if wr && i < len(full) {
+				deep := i < len(sum.WritesParamDeep) && sum.WritesParamDeep[i]
+				if _, isLocal := addrRootAlloc(stripIface(full[i])); isLocal && !deep {
+					continue // the callee writes only the caller's local variable itself
+				}
 				p := a.argPointeeProv(full[i])
+				if deep {
+					p = p.deepen()
+				}
 				a.write(ef, p, WriteSite{Instr: site, What: "call " + f.String(), Prov: p})
 			}
 		}
@@ -667,6 +738,11 @@ func (a *effectsAnalysis) callEffects(fn *ssa.Function, ef *Effects, site ssa.Ca
 		}
 		for k := range sum.Unmodelled {
 			ef.Unmodelled[k] = true
+		}
+		for i := range f.Params {
+			if sum.StoresParam&(1<<uint(i)) != 0 && i < len(full) {
+				a.retain(ef, a.get(full[i]), WriteSite{Instr: site, What: "call " + f.String() + " (retains argument)"})
+			}
 		}
 		if sum.Spawns {
 			ef.Spawns = true
@@ -695,6 +771,7 @@ func (a *effectsAnalysis) callEffects(fn *ssa.Function, ef *Effects, site ssa.Ca
 			if pointerLike(arg.Type()) {
 				p := a.argPointeeProv(arg)
 				a.write(ef, p, WriteSite{Instr: site, What: "call " + name + " (unmodelled)", Prov: p})
+				a.retain(ef, a.get(arg), WriteSite{Instr: site, What: "call " + name + " (unmodelled, may retain)"})
 			}
 		}
 		return
@@ -716,4 +793,37 @@ func (a *effectsAnalysis) argPointeeProv(arg ssa.Value) Prov {
 		return p
 	}
 	return a.get(arg)
+}
+
+// appendStoredBack: the call is append(*A, …) and its result is used only by
+// stores back to A (the idiom x = append(x, …)).
+func appendStoredBack(site ssa.CallInstruction) bool {
+	call, ok := site.(*ssa.Call)
+	if !ok || len(call.Call.Args) == 0 {
+		return false
+	}
+	ld, ok := call.Call.Args[0].(*ssa.UnOp)
+	if !ok {
+		return false
+	}
+	refs := call.Referrers()
+	if refs == nil || len(*refs) == 0 {
+		return false
+	}
+	for _, r := range *refs {
+		st, ok := r.(*ssa.Store)
+		if !ok || st.Val != ssa.Value(call) || !sameAddr(st.Addr, ld.X) {
+			return false
+		}
+	}
+	return true
+}
+
+func sameAddr(a, b ssa.Value) bool {
+	if a == b {
+		return true
+	}
+	fa, ok1 := a.(*ssa.FieldAddr)
+	fb, ok2 := b.(*ssa.FieldAddr)
+	return ok1 && ok2 && fa.Field == fb.Field && sameAddr(fa.X, fb.X)
 }
